@@ -71,7 +71,7 @@ class HypersphereART(BaseART):
         assert isinstance(params["alpha"], float)
         assert isinstance(params["beta"], float)
         assert isinstance(params["r_hat"], float)
-        assert params["r_hat"] > 0.0
+        assert np.inf > params["r_hat"] > 0.0
 
     @staticmethod
     def category_distance(
